@@ -65,4 +65,9 @@ class StochasticFiniteStateController(POMDPPolicy):
     def next_agentstate(self, ag : AgentState, a : Action, o : Observation) -> AgentState:
         oi = self.pomdp.observation_index[o]
         ai = self.pomdp.action_list.index(a)
-        return ag @ self.observation_strategy[:, ai, oi]
+        # Condition the distribution over nodes on the action that was taken.
+        node_action = ag * self.action_strategy[:, ai]
+        total = node_action.sum()
+        if total > 0:
+            node_action = node_action / total
+        return node_action @ self.observation_strategy[:, ai, oi]
